@@ -13,23 +13,26 @@ pub fn preprocess(expr: &str, file_id: FileID) -> Result<String, Box<Report>> {
 
     let mut it = expr.chars().peekable();
     while let Some(c0) = it.next() {
-        loc += 1;
+        // `loc` is the byte offset of the character following `c0`.
+        loc += c0.len_utf8();
         match (state, c0) {
             (0, '/') => {
-                loc += 1;
                 match it.next() {
                     Some('/') => {
+                        loc += 1;
                         state = 1;
                         pp.push(' ');
                         pp.push(' ');
                     }
                     Some('*') => {
-                        block_start = loc;
+                        block_start = loc - 1;
+                        loc += 1;
                         state = 2;
                         pp.push(' ');
                         pp.push(' ');
                     }
                     Some(c1) => {
+                        loc += c1.len_utf8();
                         pp.push(c0);
                         pp.push(c1);
                     }
